@@ -625,6 +625,7 @@ partial def pPdstDraws (acc : Array (CPDST.Draw (Array F) (Array F))) (nreals : 
     P (Array (CPDST.Draw (Array F) (Array F))) := do
   match (← get) with
   | [] => pure acc
+  | "S" :: _ => pure acc
   | _ =>
     let t ← tok
     let sample ←
@@ -634,6 +635,20 @@ partial def pPdstDraws (acc : Array (CPDST.Draw (Array F) (Array F))) (nreals : 
     let (cs, ks) ← pEvs #[] #[]
     guardP (cs.size == ks.size && cs.size ≤ 50 && ks.all (· ≤ 100000))
     pPdstDraws (acc.push { sample, ctl := cs.toList.zip ks.toList }) nreals
+
+def showPdst (st : CPDST.St (Array F) (Array F) F Rng.Rng) : String :=
+  let order := st.heap.arr.toList.map (·.key.2)
+  let pos := fun (i : Nat) => match order.idxOf? i with | some j => toString j | none => "x"
+  let body := String.join (order.map fun i =>
+    match st.motions[i]? with
+    | none => " [?]"
+    | some m =>
+      s!" [{showReals m.start} ; {showReals m.stop} ; " ++ (match m.control with | some u => showReals u | none => "-") ++
+        s!" ; {m.dur} ; {floatBits m.priority} ; " ++
+        (match st.cells[m.cell]? with | some cl => floatBits cl.volume | none => "?") ++ " ; " ++
+        (match m.parent with | none => "-" | some p => pos p) ++ s!" ; {if m.isSplit then 1 else 0}]")
+  s!"pdst n={order.length} cells={st.cells.size} iteration={st.iteration} last=" ++
+    (match st.lastGoal with | some l => pos l | none => "-") ++ body
 
 def opPdstPlay : P String := do
   let c ← pSys
@@ -647,10 +662,19 @@ def opPdstPlay : P String := do
   let goal ← pReals c.kind.nreals
   let thr ← pF
   let bias ← pKVF "bias"
+  let clearsol? ← (do
+    match (← get) with
+    | t :: _ => if t.startsWith "clearsol=" then let v ← pKVNat "clearsol"; pure (some (v != 0)) else pure none
+    | [] => pure none)
   let lseed ← pKVNat "lseed"
   guardP (bias ≥ 0 && bias ≤ 1 && lseed < 4294967296)
   expect "draws"
   let draws ← pPdstDraws #[] c.kind.nreals
+  let draws2 ← (do
+    match (← get) with
+    | "S" :: _ => let _ ← tok; pPdstDraws #[] c.kind.nreals
+    | _ => pure #[])
+  atEnd
   let valid := ControlSys.valid c eps boxes
   let step := ControlSys.step c.kind c.dt
   let goalT := goalTest gk 1.7976931348623157e308 goal thr
@@ -663,20 +687,18 @@ def opPdstPlay : P String := do
       rng01 := fun r => r.uniform01,
       rngInt1 := fun r hi => let x := r.uniformInt 1 (Int.ofNat hi); (x.1.toNat, x.2) }
   let r := CPDST.solve Pb (Rng.Rng.create lseed.toUInt64) starts draws.toList
-  let st := r.final
-  let order := st.heap.arr.toList.map (·.key.2)
-  let pos := fun (i : Nat) => match order.idxOf? i with | some j => toString j | none => "x"
-  let body := String.join (order.map fun i =>
-    match st.motions[i]? with
-    | none => " [?]"
-    | some m =>
-      s!" [{showReals m.start} ; {showReals m.stop} ; " ++ (match m.control with | some u => showReals u | none => "-") ++
-        s!" ; {m.dur} ; {floatBits m.priority} ; " ++
-        (match st.cells[m.cell]? with | some cl => floatBits cl.volume | none => "?") ++ " ; " ++
-        (match m.parent with | none => "-" | some p => pos p) ++ s!" ; {if m.isSplit then 1 else 0}]")
-  pure (solHead c r.status r.dif r.path goalT step valid ++
-    s!" | pdst n={order.length} cells={st.cells.size} iteration={st.iteration} last=" ++
-    (match st.lastGoal with | some l => pos l | none => "-") ++ body)
+  let first := solHead c r.status r.dif r.path goalT step valid ++ " | " ++ showPdst r.final
+  match clearsol? with
+  | none => pure first
+  | some cs =>
+    -- pdef_->hasExactSolution(): the first solve published an exact path and the caller did not clear it
+    let hasExact := !cs && r.status == .exact && r.path.isSome
+    let r2 := CPDST.resume Pb r.final hasExact [] draws2.toList
+    let nsol := (if r.path.isSome then 1 else 0) + (if r2.path.isSome then 1 else 0)
+    let second :=
+      if cs then solHead c r2.status r2.dif r2.path goalT step valid
+      else s!"status={statusName r2.status} nsol={nsol}"
+    pure (first ++ " ### " ++ second ++ " | " ++ showPdst r2.final)
 
 def init (ts : List String) : Option Unit :=
   match ts with
